@@ -3,8 +3,9 @@
     parallel fork/join, BIf = exclusive split on a boolean variable with a default flow and a merge,
     BLoop = merge; body; exclusive split back to the merge while the variable is true, BSub = embedded
     sub-process with one start and one end event, BIncl = inclusive fork/join, BCond = a task with
-    conditional outgoing flows.  The state of a run is the tree of places where
-    tokens wait for a task answer. *)
+    conditional outgoing flows, BEnd k = an end event of its own (the token that reaches it is consumed
+    there; what follows in the sequence is not executed by it).  The state of a run is the tree of
+    places where tokens wait for a task answer. *)
 From Coq Require Export List Arith Bool Lia.
 Export ListNotations.
 
@@ -12,7 +13,8 @@ Inductive blk :=
 | BSkip | BTask (t : nat) | BSeq (a b : blk) | BPar (a b : blk) | BIf (v : nat) (a b : blk)
 | BLoop (v : nat) (body : blk) | BSub (b : blk)
 | BIncl (v1 v2 : nat) (a b d : blk)     (* inclusive fork: a if v1, b if v2, both if both, d (default) if neither; inclusive join *)
-| BCond (t : nat) (v : nat) (a b : blk). (* task t whose outgoing flows are conditional: to a if v, to b if not v; exclusive merge *)
+| BCond (t : nat) (v : nat) (a b : blk)  (* task t whose outgoing flows are conditional: to a if v, to b if not v; exclusive merge *)
+| BEnd (k : nat).                        (* end event k *)
 
 Definition env := list bool.
 Definition getv (e : env) (v : nat) : bool := nth v e false.
@@ -31,31 +33,44 @@ Inductive run :=
 | RSeq (r : run) (rest : blk)
 | RPar (r1 r2 : run)
 | RLoop (r : run) (v : nat) (body : blk)
-| RSub (r : run).
+| RSub (r : run)
+| REnded                                  (* the token was consumed by an end event (or: this inclusive branch was not activated) *)
+| RIncl (r1 r2 : run).                    (* the two branches of an inclusive block, up to its join *)
 
+(* [fin]: the block is finished and one token leaves it;  [ended]: the block is finished and no token
+   leaves it (all its tokens were consumed by end events inside).  A parallel join with a branch that
+   ended never releases (neither holds: such programs are excluded by [endsafe]); an inclusive join
+   releases one token once every activated branch has arrived or ended elsewhere and at least one has
+   arrived; a sub-process is finished when no token is left inside, and its parent token continues
+   whichever end events they took. *)
+Fixpoint ended (r : run) : bool :=
+  match r with REnded => true | RIncl a b => ended a && ended b | _ => false end.
 Fixpoint fin (r : run) : bool :=
   match r with
   | RDone => true
   | RPar a b => fin a && fin b
-  | RSub r => fin r
+  | RSub r => fin r || ended r
+  | RIncl a b => (fin a || ended a) && (fin b || ended b) && (fin a || fin b)
   | _ => false
   end.
+Definition complete (r : run) : bool := fin r || ended r.
 
 Fixpoint start (e : env) (b : blk) : run :=
   match b with
   | BSkip => RDone
   | BTask t => RTask t
-  | BSeq a b => let r := start e a in if fin r then start e b else RSeq r b
+  | BSeq a b => let r := start e a in if fin r then start e b else if ended r then REnded else RSeq r b
   | BPar a b => RPar (start e a) (start e b)
   | BIf v a b => if getv e v then start e a else start e b
   | BLoop v body => let r := start e body in
-                    if fin r then (if getv e v then RSpin else RDone) else RLoop r v body
+                    if fin r then (if getv e v then RSpin else RDone) else if ended r then REnded else RLoop r v body
   | BSub b => RSub (start e b)
   | BIncl v1 v2 a b d =>
       if getv e v1 || getv e v2
-      then RPar (if getv e v1 then start e a else RDone) (if getv e v2 then start e b else RDone)
+      then RIncl (if getv e v1 then start e a else REnded) (if getv e v2 then start e b else REnded)
       else start e d
   | BCond t v a b => RSeq (RTask t) (BIf v a b)
+  | BEnd _ => REnded
   end.
 
 (* the token waiting at task t is answered; e is the environment after the answer's writes *)
@@ -64,21 +79,51 @@ Fixpoint answer (e : env) (r : run) (t : nat) : run :=
   | RDone => RDone
   | RSpin => RSpin
   | RTask t' => if t =? t' then RDone else r
-  | RSeq r1 rest => let r' := answer e r1 t in if fin r' then start e rest else RSeq r' rest
+  | RSeq r1 rest => let r' := answer e r1 t in
+                    if fin r' then start e rest else if ended r' then REnded else RSeq r' rest
   | RPar a b => RPar (answer e a t) (answer e b t)
   | RLoop r1 v body =>
       let r' := answer e r1 t in
       if fin r' then
-        (if getv e v then (let r2 := start e body in if fin r2 then RSpin else RLoop r2 v body) else RDone)
-      else RLoop r' v body
+        (if getv e v then (let r2 := start e body in
+                           if fin r2 then RSpin else if ended r2 then REnded else RLoop r2 v body) else RDone)
+      else if ended r' then REnded else RLoop r' v body
   | RSub r1 => RSub (answer e r1 t)
+  | REnded => REnded
+  | RIncl a b => RIncl (answer e a t) (answer e b t)
   end.
 
 Fixpoint pending (r : run) : list nat :=
   match r with
   | RTask t => [t]
   | RSeq r _ | RLoop r _ _ | RSub r => pending r
-  | RPar a b => pending a ++ pending b
+  | RPar a b | RIncl a b => pending a ++ pending b
+  | _ => []
+  end.
+
+(* the end events reached while a block is started / while an answer is processed (same recursion as
+   [start] / [answer]) *)
+Fixpoint ends_start (e : env) (b : blk) : list nat :=
+  match b with
+  | BSeq a b => ends_start e a ++ (if fin (start e a) then ends_start e b else [])
+  | BPar a b => ends_start e a ++ ends_start e b
+  | BIf v a b => if getv e v then ends_start e a else ends_start e b
+  | BLoop v body => ends_start e body
+  | BSub b => ends_start e b
+  | BIncl v1 v2 a b d =>
+      if getv e v1 || getv e v2
+      then (if getv e v1 then ends_start e a else []) ++ (if getv e v2 then ends_start e b else [])
+      else ends_start e d
+  | BEnd k => [k]
+  | _ => []
+  end.
+Fixpoint ends_answer (e : env) (r : run) (t : nat) : list nat :=
+  match r with
+  | RSeq r1 rest => ends_answer e r1 t ++ (if fin (answer e r1 t) then ends_start e rest else [])
+  | RPar a b | RIncl a b => ends_answer e a t ++ ends_answer e b t
+  | RLoop r1 v body =>
+      ends_answer e r1 t ++ (if fin (answer e r1 t) && getv e v then ends_start e body else [])
+  | RSub r1 => ends_answer e r1 t
   | _ => []
   end.
 
@@ -86,17 +131,46 @@ Fixpoint pending (r : run) : list nat :=
 Definition op := (nat * list (nat * bool))%type.
 Definition step (s : env * run) (o : op) : env * run :=
   let e' := apply_writes (fst s) (snd o) in (e', answer e' (snd s) (fst o)).
+Definition step_ends (s : env * run) (o : op) : list nat :=
+  ends_answer (apply_writes (fst s) (snd o)) (snd s) (fst o).
 
 (* what an observer sees: the pending requests after start and after every answer, whether the
    instance is complete, the final variables *)
 Fixpoint observe (s : env * run) (ops : list op) : list (list nat) * bool * env :=
   match ops with
-  | [] => ([pending (snd s)], fin (snd s), fst s)
+  | [] => ([pending (snd s)], complete (snd s), fst s)
   | o :: r => let '(ps, f, e) := observe (step s o) r in (pending (snd s) :: ps, f, e)
   end.
 Definition behaviour (b : blk) (e : env) (ops : list op) := observe (e, start e b) ops.
+(* ... and the end events reached, per step *)
+Fixpoint observe_ends (s : env * run) (ops : list op) : list (list nat) :=
+  match ops with
+  | [] => []
+  | o :: r => step_ends s o :: observe_ends (step s o) r
+  end.
+Definition end_events (b : blk) (e : env) (ops : list op) := ends_start e b :: observe_ends (e, start e b) ops.
 
-(* splicing the content of every sub-process in place *)
+(* programs without end events of their own; programs in which no end event sits inside a parallel block
+   (its join would wait for ever) *)
+Fixpoint endfree (b : blk) : bool :=
+  match b with
+  | BEnd _ => false
+  | BSeq a b | BPar a b | BIf _ a b | BCond _ _ a b => endfree a && endfree b
+  | BLoop _ b | BSub b => endfree b
+  | BIncl _ _ a b d => endfree a && endfree b && endfree d
+  | _ => true
+  end.
+Fixpoint endsafe (b : blk) : bool :=
+  match b with
+  | BPar a b => endfree a && endfree b
+  | BSeq a b | BIf _ a b | BCond _ _ a b => endsafe a && endsafe b
+  | BLoop _ b | BSub b => endsafe b
+  | BIncl _ _ a b d => endsafe a && endsafe b && endsafe d
+  | _ => true
+  end.
+
+(* splicing the content of every sub-process in place (for programs without end events of their own:
+   an end event inside a sub-process ends that sub-process only) *)
 Fixpoint flatten (b : blk) : blk :=
   match b with
   | BSeq a b => BSeq (flatten a) (flatten b)
@@ -112,6 +186,7 @@ Fixpoint flatR (r : run) : run :=
   match r with
   | RSeq r rest => RSeq (flatR r) (flatten rest)
   | RPar a b => RPar (flatR a) (flatR b)
+  | RIncl a b => RIncl (flatR a) (flatR b)
   | RLoop r v body => RLoop (flatR r) v (flatten body)
   | RSub r => flatR r
   | _ => r
